@@ -65,7 +65,9 @@ impl Bound for f64 {
         f64::MAX
     }
     fn hash<H: std::hash::Hasher>(&self, state: &mut H) {
-        hash::Hash::hash(&self.to_be_bytes(), state)
+        // 0.0 == -0.0, they must have the same hash
+        let value = if *self == 0.0 { 0.0 } else { *self };
+        hash::Hash::hash(&value.to_be_bytes(), state)
     }
 }
 
